@@ -31,7 +31,7 @@ type modelEntry struct {
 
 func (w *World) groundInfoModel() (fc *FuncCtx) {
 	pkg := w.Pkgs[repoModule+"/ipfix"]
-	fc = &FuncCtx{w: w, pkg: pkg, info: pkg.TypesInfo, key: repoModule + "/ipfix.InfoModel", counter: map[string]int{}, allVars: map[*types.Var]bool{}, usedContracts: map[string]bool{},
+	fc = &FuncCtx{w: w, pkg: pkg, info: pkg.TypesInfo, key: repoModule + "/ipfix.InfoModel", counter: map[string]int{}, allVars: map[*types.Var]bool{}, usedContracts: map[string]bool{}, sideSeen: map[string]bool{},
 		contract: &Contract{Loops: map[int]*LoopContract{}, Opts: map[string]string{}, Pkg: pkg}}
 	defer func() {
 		if r := recover(); r != nil {
@@ -286,7 +286,7 @@ func (fc *FuncCtx) obligeAt(st *State, kind, site, goal, pos, text string) {
 // including those stored in interface-typed fields) must therefore consist of encodable types.
 func (w *World) groundJSONShape() (fc *FuncCtx) {
 	pkg := w.Pkgs[repoModule+"/sflow"]
-	fc = &FuncCtx{w: w, pkg: pkg, info: pkg.TypesInfo, key: repoModule + "/sflow.jsonshape", counter: map[string]int{}, allVars: map[*types.Var]bool{}, usedContracts: map[string]bool{},
+	fc = &FuncCtx{w: w, pkg: pkg, info: pkg.TypesInfo, key: repoModule + "/sflow.jsonshape", counter: map[string]int{}, allVars: map[*types.Var]bool{}, usedContracts: map[string]bool{}, sideSeen: map[string]bool{},
 		contract: &Contract{Loops: map[int]*LoopContract{}, Opts: map[string]string{}, Pkg: pkg}}
 	st := &State{guard: "true", vars: map[types.Object]Term{}, alias: map[types.Object]ast.Expr{}, ghost: map[string]Term{}, held: map[string]string{}}
 	var encodable func(t types.Type, depth int) (bool, string)
@@ -361,7 +361,7 @@ func (w *World) groundJSONShape() (fc *FuncCtx) {
 // under the lock contracts of this run.
 func (w *World) groundGuardedAccess(verified map[string]bool) (fc *FuncCtx) {
 	pkg := w.Pkgs[repoModule+"/ipfix"]
-	fc = &FuncCtx{w: w, pkg: pkg, info: pkg.TypesInfo, key: repoModule + "/guarded", counter: map[string]int{}, allVars: map[*types.Var]bool{}, usedContracts: map[string]bool{},
+	fc = &FuncCtx{w: w, pkg: pkg, info: pkg.TypesInfo, key: repoModule + "/guarded", counter: map[string]int{}, allVars: map[*types.Var]bool{}, usedContracts: map[string]bool{}, sideSeen: map[string]bool{},
 		contract: &Contract{Loops: map[int]*LoopContract{}, Opts: map[string]string{}, Pkg: pkg}}
 	st := &State{guard: "true", vars: map[types.Object]Term{}, alias: map[types.Object]ast.Expr{}, ghost: map[string]Term{}, held: map[string]string{}}
 	var paths []string
@@ -436,7 +436,7 @@ func (w *World) groundGuardedAccess(verified map[string]bool) (fc *FuncCtx) {
 // integer or string keys; interface-typed or unexported data fields would be lost or altered.
 func (w *World) groundCacheTypes() (fc *FuncCtx) {
 	pkg := w.Pkgs[repoModule+"/ipfix"]
-	fc = &FuncCtx{w: w, pkg: pkg, info: pkg.TypesInfo, key: repoModule + "/cachetypes", counter: map[string]int{}, allVars: map[*types.Var]bool{}, usedContracts: map[string]bool{},
+	fc = &FuncCtx{w: w, pkg: pkg, info: pkg.TypesInfo, key: repoModule + "/cachetypes", counter: map[string]int{}, allVars: map[*types.Var]bool{}, usedContracts: map[string]bool{}, sideSeen: map[string]bool{},
 		contract: &Contract{Loops: map[int]*LoopContract{}, Opts: map[string]string{}, Pkg: pkg}}
 	st := &State{guard: "true", vars: map[types.Object]Term{}, alias: map[types.Object]ast.Expr{}, ghost: map[string]Term{}, held: map[string]string{}}
 	var check func(t types.Type, path string, depth int, p *types.Package)
@@ -515,7 +515,7 @@ func (w *World) groundCacheTypes() (fc *FuncCtx) {
 // of distinct (address, id) that share a map key, replayed on the real cache.
 func (w *World) groundFNVKey() (fc *FuncCtx) {
 	pkg := w.Pkgs[repoModule+"/ipfix"]
-	fc = &FuncCtx{w: w, pkg: pkg, info: pkg.TypesInfo, key: repoModule + "/ipfix.cachekey", counter: map[string]int{}, allVars: map[*types.Var]bool{}, usedContracts: map[string]bool{},
+	fc = &FuncCtx{w: w, pkg: pkg, info: pkg.TypesInfo, key: repoModule + "/ipfix.cachekey", counter: map[string]int{}, allVars: map[*types.Var]bool{}, usedContracts: map[string]bool{}, sideSeen: map[string]bool{},
 		contract: &Contract{Loops: map[int]*LoopContract{}, Opts: map[string]string{}, Pkg: pkg}}
 	for _, n := range []int{4, 16} {
 		name := fmt.Sprintf("ipfix.cachekey#lemma.keyInjective.addr%d", n)
